@@ -12,6 +12,7 @@ type isStandardClass interface {
 	initArgDefs(name string) []*SlotDef
 	initFormMap() map[string]*SlotDef
 	defaultsMap() map[string]slip.Object
+	allDefaultInitArgs() []*defaultInitArg
 	precedenceList() []slip.Symbol
 
 	Ready() bool
